@@ -29,26 +29,37 @@ def check(run: Run) -> None:
     from ..lib import used_visitor
 
     ex_cls = used_visitor(m, ctx, m.find_func("extract_metadata", in_module="func_adl.ast.meta_data"), True)
+    from ..terms import subst
+
     vc = ex_cls.methods.get("visit_Call")
+    bind = {}
+    handler_form = False
     if vc is None:
-        raise AnalysisError("anchor vanished: _extract_metadata.visit_Call")
+        # the dispatch protocol of the base class: call_MetaData(self, node, node.args) is reached exactly for calls of the
+        # Name MetaData, every other call goes through the inherited visit_Call
+        vc = ex_cls.methods.get("call_MetaData")
+        if vc is None or len(vc.pos_params) != 3:
+            raise AnalysisError("anchor vanished: _extract_metadata.visit_Call / call_MetaData(self, node, args)")
+        handler_form = True
+        bind = {("param", vc.pos_params[2]): ("attr", ("param", vc.pos_params[1]), "args")}
     fa = ctx.analysis(vc)
     nodep = ("param", vc.pos_params[1])
     selfp = ("param", vc.pos_params[0])
-    base = m.find_method(ex_cls, "visit_Call", skip_self=True)
+    base = m.find_method(ex_cls, "visit_Call", skip_self=True) if not handler_form else None
     base_rt = None
     if base is not None:
         base_rt = strip_sites(ctx.analysis(base).return_term())
     n_wrap = 0
     for s, n in fa.returns():
         t = strip_sites(fa.term_of(s.value, n)) if s.value is not None else ("const", None)
+        t = subst(t, bind) if bind else t
         src = ("index", ("attr", nodep, "args"), 0)
         if t == ("visit", src):
             n_wrap += 1
             run.ok("C15.R2", vc, "wrapper case returns self.visit(source)")
             fx = Facts(fa, s)
             names = fx.str_equals(("attr", ("attr", nodep, "func"), "id"))
-            run.check(names == {"MetaData"} and fx.isinstance_of(("attr", nodep, "func"), {"ast.Name"}), "C15.R3", vc, s, "wrapper case guarded by callee is Name('MetaData')", f"wrapper removal is not restricted to calls of the Name MetaData (names: {sorted(names)})")
+            run.check(handler_form or (names == {"MetaData"} and fx.isinstance_of(("attr", nodep, "func"), {"ast.Name"})), "C15.R3", vc, s, "wrapper case guarded by callee is Name('MetaData')", f"wrapper removal is not restricted to calls of the Name MetaData (names: {sorted(names)})")
             # R1: append dominates
             apps = [c for c in calls_in(vc) if isinstance(c.func, ast.Attribute) and c.func.attr in ("append", "insert", "extend")]
             good = []
@@ -56,6 +67,7 @@ def check(run: Run) -> None:
                 tgt = strip_sites(fa.term_of(c.func.value))
                 if tgt[0] == "attr" and tgt[1] == selfp:
                     argt = strip_sites(fa.term_of(c.args[-1])) if c.args else None
+                    argt = subst(argt, bind) if bind and argt is not None else argt
                     want = ("app", ("global", "ast.literal_eval"), (("index", ("attr", nodep, "args"), 1),), ())
                     if c.func.attr == "append" and argt == want and fa.cfg.dominates(fa.cfg.node_of(c), n):
                         good.append(c)
@@ -85,7 +97,7 @@ def check(run: Run) -> None:
     ectx = TermCtx(m, max_depth=3)
     for ent in dispatch_entries(m, ex_cls):
         for s_, leaked, whole in unvisited_in_entry(ectx, ent):
-            if ent is vc and leaked == ("index", ("attr", nodep, "args"), 1):
+            if ent is vc and (subst(leaked, bind) if bind else leaked) == ("index", ("attr", nodep, "args"), 1):
                 continue  # the wrapper's dictionary literal is consumed, not embedded
             run.fail("C15.R2", ent, s_, f"{ent.name} puts {show(leaked)} into its result without visiting it: MetaData wrappers inside it (arguments, keyword values, lambda bodies) are collected or removed only in part", "self.generic_visit(node)", show(whole)[:200])
     for base_m in [f for f in m.all_methods(ex_cls).values() if f.name == "visit_Call" and f is not vc]:
